@@ -1,3 +1,8 @@
 import GramModel.Syntax
 import GramModel.DeBruijn
 import GramModel.Eval
+import GramModel.Token
+import GramModel.Generated.Tokenizer
+import GramModel.Generated.Terms
+import GramModel.Generated.Sites
+import GramModel.Lexer
